@@ -66,7 +66,8 @@ NODE_MSG = json.dumps({'SECoP': 'node', 'port': 10767, 'equipment_id': 'eq', 'fi
                        'description': 'discover'}).encode()
 DGRAMS = {
     'discover': [b'{"SECoP": "discover"}', b'{"SECoP":"discover"}', b' {\n "SECoP" :\t"discover"\n}\n',
-                 b'{"SECoP":"\\u0064iscover"}', b'{"\\u0053ECoP":"discover"}', b'{"SECoP":"discover"}' + b' ' * 1004],
+                 b'{"SECoP":"\\u0064iscover"}', b'{"\\u0053ECoP":"discover"}', b'{"SECoP":"discover"}' + b' ' * 1004,
+                 b' ' * 1004 + b'{"SECoP":"discover"}'],
     'object': [NODE_MSG, b'{}', b'{"SECoP":"Discover"}', b'{"secop":"discover"}', b'{"SECoP":1}', b'{"SECoP":null}',
                b'{"SECoP":["discover"]}', b'{"x":{"SECoP":"discover"}}', b'{"SECoP":"discover "}',
                b'{"SECoP":{"SECoP":"discover"}}', b'{"discover":"SECoP"}', b'{"SECoP":true}'],
@@ -656,7 +657,20 @@ def _random_server(seed):
 
 
 def server_signature(clause, trace, l):
-    return {'module': 'DiscoveryServer', 'clause': clause}
+    """clause named by TLC + who answered the probe after the failing operation"""
+    sig = {'module': 'DiscoveryServer', 'clause': clause}
+    if 0 < l <= len(trace) and trace[l - 1]['ev'] != 'boot':
+        ev = trace[l - 1]
+        gen = 1 + sum(1 for e in trace[:l] if e['ev'] == 'restart')
+        ports = sorted(trace[0]['listening'])
+        by_gen = {}
+        for g, i in ev['answers']:
+            by_gen.setdefault(g, []).append(i)
+        if ev['ev'] == 'restart':
+            sig['current_answers'] = sorted(by_gen.get(gen, [])) == ports
+        sig['all_previous_answer'] = all(sorted(by_gen.get(g, [])) == ports for g in range(1, gen))
+        sig['other_answers'] = any(g not in range(1, gen + 1) for g in by_gen)
+    return sig
 
 
 def validate_server(chk, triples, what):
